@@ -625,6 +625,17 @@ func (w *world) end(s *vsched.Sched, r *vsched.Result) (string, string) {
 			}
 		}
 	}
+	if p.ClockHit && p.Mode == vsched.ClockStepped && p.FailRT && p.Wait == 0 && !p.Adv && w.parent == nil {
+		// nothing in this history takes (virtual) time - the pacer never waits, every exchange fails at once, the
+		// consumer is prompt: a hit that starts later than the attack itself was held back by the implementation
+		for k, st := range w.startT {
+			if st > w.began {
+				if v := fmt.Sprintf("C03: hit #%d started %d after the attack's start in a history in which neither pacer, transport nor consumer take any time (a released hit waited although workers were free)", k, st-w.began); w.own(v) {
+					return v, outcome
+				}
+			}
+		}
+	}
 	if p.ClockHit && p.Mode != vsched.ClockFrozen {
 		// release time of tick i = time of the Pace call + stall + max(wait,0)
 		var rel []time.Duration
@@ -1050,6 +1061,10 @@ func c03Plans() []plan {
 			}
 			if m < 3 {
 				add(params{W0: w0, M: m, N: n, Cause: "stop1", Slow: true}, ev.Pick(2, 3))
+			}
+			if n <= 3 && w0 <= 2 {
+				// every exchange fails at once (connection refused, timeout): the workers go straight back to work
+				add(params{W0: w0, M: m, N: n, Cause: "pacer", FailRT: true, Mode: vsched.ClockStepped, ClockHit: true}, bs)
 			}
 			if n <= 3 && w0 <= 1 {
 				// what the unlimited-rate pacer reports as its rate (0), with a client timeout set (the default configuration)
